@@ -233,8 +233,22 @@ def check_pair(fo, fn, io, in_, opt):
             renames.append((ok, nk, c.old.hash_info, c.new.hash_info))
         else:
             flatgot[(c.typ, ok, nk)] += 1
-    base = ref_diff(fo, fn, mode, wu, sh)
     optname = f"{mode}{'+unchanged' if wu else ''}{'+shallow' if sh else ''}"
+    if sh:
+        return check_shallow(fo, fn, mode, wu, flatgot, renames, optname, viol), len(got)
+    base = ref_diff(fo, fn, mode, wu, False)
+    if mode == "hash_only" and not wu and fo is not None and fn is not None:
+        # Directory entries beneath a directory whose content-derived hash is equal on
+        # both sides are not changes (the files are the same): exempt on both sides.
+        same = [k for k in fo if k in fn and fo[k][0] and fo[k][0] == fn[k][0]
+                and fo[k][0][1].endswith(".dir")]
+
+        def under(k):
+            return k is not None and any(len(k) > len(d) and k[: len(d)] == d for d in same)
+
+        base = Counter({c: n for c, n in base.items() if not (under(c[1]) or under(c[2]))})
+        flatgot = Counter({c: n for c, n in flatgot.items() if not (under(c[1]) or under(c[2]))})
+        renames = [r for r in renames if not (under(r[0]) or under(r[1]))]
     if not (wr and fo is not None and fn is not None):
         if renames:
             viol.append((f"rename-without-request/{optname}", repr(renames)))
@@ -298,6 +312,61 @@ def check_pair(fo, fn, io, in_, opt):
                 )
             )
     return viol, (len(got), len(renames))
+
+
+def check_shallow(fo, fn, mode, wu, flatgot, renames, optname, viol):
+    """shallow=True: children of hashed directory entries may be left unexplored.
+
+    The property does not define what is skipped, so only this is demanded:
+    keys with no hashed ancestor on either side are reported exactly as without
+    shallow; any other reported change is classified correctly for what the
+    diff can see (both sides, or one side hidden); no key is reported twice.
+    """
+    fo_, fn_ = fo or {}, fn or {}
+
+    def shaded(k):
+        return any(
+            (f.get(k[:i]) is not None and f[k[:i]][0] is not None)
+            for f in (fo_, fn_) for i in range(1, len(k))
+        )
+
+    base = ref_diff(fo, fn, mode, wu, False)
+    base_u = Counter({c: n for c, n in base.items() if not shaded(c[1] or c[2])})
+    got_u = Counter()
+    seen = Counter()
+    items = list(flatgot.items())
+    for ok, nk, oh, nh in renames:
+        if not oh or oh != nh:
+            viol.append((f"rename-pairs-different-hash/{optname}", f"{ok}->{nk}"))
+        items.append((("delete", ok, None), 1))
+        items.append((("add", None, nk), 1))
+    for (typ, ok, nk), n in items:
+        k = ok if ok is not None else nk
+        seen[k] += n
+        if not shaded(k):
+            got_u[(typ, ok, nk)] += n
+            continue
+        o, nn = fo_.get(k), fn_.get(k)
+        allowed = {classify(o, nn, mode), classify(o, None, mode), classify(None, nn, mode)}
+        if typ not in allowed:
+            viol.append((f"misclassified-under-hashed-dir/{optname}", f"{k}: {typ} not in {allowed}"))
+    dup = [k for k, n in seen.items() if n > 1]
+    if dup:
+        viol.append((f"duplicate-key/{optname}", f"{dup}"))
+    if not renames and got_u != base_u:
+        missing = sorted((base_u - got_u).elements(), key=repr)
+        extra = sorted((got_u - base_u).elements(), key=repr)
+        kind = "misclassified" if missing and extra else ("missing-change" if missing else "spurious-change")
+        viol.append((f"{kind}/{optname}", f"missing={missing} extra={extra}"))
+    elif renames:
+        # every unshaded base change must be accounted for (as itself or inside a rename)
+        r_old = {r[0] for r in renames}
+        r_new = {r[1] for r in renames}
+        lost = [c for c in sorted((base_u - got_u).elements(), key=repr)
+                if not (c[0] == "add" and c[2] in r_new) and not (c[0] == "delete" and c[1] in r_old)]
+        if lost:
+            viol.append((f"rename-mode-lost-or-duplicated-key/{optname}", f"lost={lost}"))
+    return viol
 
 
 def classify_hash(flat, k):
@@ -393,8 +462,11 @@ def run(ctx):
         "its hash is a function of (relative key, file hash) of its listing",
         "entries with neither hash nor metadata are excluded (their classification cell is "
         "not determined by the property)",
-        "shallow=True is modelled as: keys beneath a hashed directory entry are invisible on "
-        "that side",
+        "shallow=True: what is skipped beneath hashed directory entries is not defined by the "
+        "property; keys without a hashed ancestor must be reported exactly, others only "
+        "correctly classified for what is visible and never twice",
+        "hash_only without with_unchanged: directory entries beneath a directory whose "
+        "content-derived hash is equal on both sides are not changes",
     ]
     ctx.require("renames_found", "shortcut_candidates", "kind_change_pairs")
     cs = [{"tier": ctx.tier, "i": i} for i in range(-1, len(flats))]
